@@ -79,6 +79,10 @@ HalfV(y) == y.k = "fin" /\ CmpMag(y.c, y.q, <<5>>, 0 - 1) = 0
 SmallInt(y) == ToInt(IF y.q >= 0 THEN MulPow10(y.c, y.q) ELSE DivPow10(y.c, 0 - y.q))
 IsSmallInt(y) == IsInteger(y) /\ (y.c = << >> \/ NumDigits(y.c) + y.q <= 7)
 
+\* a * n for |a| <= 10^4, 0 <= n < 10^7 without leaving TLC's 32-bit integers: beyond +-10^6 every exponent means the same
+\* (overflow or underflow), so the product is clamped there
+ClampMul(a, n) == IF a = 0 \/ n = 0 THEN 0
+                  ELSE IF n > 1000000 \div AbsI(a) THEN (IF a > 0 THEN 1000000 ELSE 0 - 1000000) ELSE a * n
 PowLadder(x, y, m) ==
   IF IsZero(y) THEN Val(OneV(FALSE))                                     \* Pow(x, +-0) = 1 for any x
   ELSE IF x.k = "fin" /\ ~x.neg /\ IsOneMag(x) THEN Val(OneV(FALSE))     \* Pow(1, y) = 1 for any y
@@ -103,7 +107,7 @@ PowLadder(x, y, m) ==
            neg == x.neg /\ IsOddInt(y)
        IN IF pt[1] /\ pt[2] = 0 /\ IsInteger(y) THEN Val(OneV(neg))           \* (-1)^n = +-1 exactly, negative n included
           ELSE IF pt[1] /\ ~y.neg /\ IsInteger(y) THEN
-             (IF IsSmallInt(y) THEN Rnd(neg, One, One, pt[2] * SmallInt(y))
+             (IF IsSmallInt(y) THEN Rnd(neg, One, One, ClampMul(pt[2], SmallInt(y)))
               ELSE IF pt[2] > 0 THEN Val(InfV(neg))                            \* |exponent| astronomically large
               ELSE IF pt[2] = 0 THEN Val(OneV(neg)) ELSE Val(ZeroV(neg)))
           ELSE IF pt[1] /\ pt[2] % 2 = 0 /\ HalfV(y) /\ ~x.neg THEN
